@@ -114,6 +114,7 @@ void exec_c27(const Plan& p, Ctx& ctx) {
     std::uint64_t uniq = 1;
     bool stopped = false;
 
+    int refused_stops = 0;
     for (auto& op : p.ops) {
         ++ctx.ops_done;
         if (stopped) break;
@@ -149,10 +150,18 @@ void exec_c27(const Plan& p, Ctx& ctx) {
         const std::string what = std::string(cmd == 0 ? "STORE" : cmd == 1 ? "FETCH(stream)" : cmd == 2 ? "FETCH(OUT)" : "STOP") + " with " + token_kind_name[kind] + " token";
         if (authentic) {
             if (cmd == 0 && rep.ok) ++expected_chunks;
-            if (cmd == 3 && rep.ok) { stopped = true; sk::wait_exit(d.pid, 60 * kSec); }
+            if (cmd == 3 && rep.ok) {
+                // "no effect" also means no trace: the first accepted STOP is the one that stops the transport, however many STOPs were
+                // refused before it
+                if (refused_stops > 0) ctx.boundary("authenticated_stop_after_refused_stops");
+                if (rep.field("TRANSPORT") != "STOPPED")
+                    ctx.violate("C27.refused_request_left_a_trace", fmt("the first accepted STOP answered TRANSPORT:%s after %d refused STOP request(s): a refused request changed what the authenticated one does", rep.field("TRANSPORT").c_str(), refused_stops));
+                stopped = true; sk::wait_exit(d.pid, 60 * kSec);
+            }
             continue;
         }
         // ---- unauthenticated: must be refused with an authentication error and have no effect
+        if (cmd == 3) ++refused_stops;
         if (!rep.got_status) {
             if (!sk::alive(d.pid)) { ctx.violate("C27.daemon_died", what + ": the daemon process ended: " + sk::info(d.pid).exit_detail); break; }
             ctx.violate("C27.no_reply", what + ": no response");
